@@ -16,7 +16,7 @@ POLICY_KEYS = {'pch': 'target_pch_out_db', 'psd': 'target_psd_out_mWperGHz', 'ps
 PER_DEGREE_KEYS = {'pch': 'per_degree_pch_out_db', 'psd': 'per_degree_psd_out_mWperGHz',
                    'psw': 'per_degree_psd_out_mWperSlotWidth'}
 # values: dBm for the reference carrier 32 GBaud / 50 GHz
-NODE_DBM = [-20.0, -25.0, -12.0]
+NODE_DBM = [-20.0, -25.0, -12.0, 0.0]      # 0 dBm per channel: a valid target whose value happens to be falsy
 OVER_DBM = [-21.0, -17.0]
 VARIETIES = ['plain', 'imp', 'imp_pd', 'impR', 'impR_pd0']
 # express profile in force: the per-degree choice if there is one, else the first express profile listed in the library
@@ -378,7 +378,7 @@ def main(rep, tier, seed):
     pols = ['pch', 'psd', 'psw']
     for lib_policy in pols:
         for node_policy_ in pols + ['lib']:
-            for node_val in (range(3) if node_policy_ != 'lib' else [0]):
+            for node_val in (range(len(NODE_DBM)) if node_policy_ != 'lib' else [0]):
                 for override in ['none'] + pols:
                     for over_val in (range(2) if override != 'none' else [0]):
                         for variety in VARIETIES:
@@ -391,7 +391,7 @@ def main(rep, tier, seed):
             cases.append(dict(kind='keys', lib_keys=lk, el_keys=ek))
     results, stats = engine.run_pool('checks.c06', cases, horizon=300)
     rep.absorb(results)
-    rep.cov['bound'] = ('full product: library policy x node policy{pch,psd,psw,library default} x 3 target values x per-degree '
+    rep.cov['bound'] = ('full product: library policy x node policy{pch,psd,psw,library default} x 4 target values (0 dBm included) x per-degree '
                         'override{none,pch,psd,psw} x 2 values x ROADM type{no impairments, per-band impairment profiles listed in two orders, '
                         'element-selected profile id 3 / id 0} x {designed network, saved + reloaded + redesigned network}; per network 3 crossing kinds x 6 spectra (two of them equally sized in different loss ranges, consecutively on one ROADM object) x 7 input-level patterns x 3 carrier construction orders + 4 '
                         'recorded propagations; part 2: all 8x8 subsets of equalisation keys at library and element level')
